@@ -118,8 +118,7 @@ TRUSTED_BASE = ['modelled (not verified) code: pybtex/bibtex/names.py (NameForma
                 'the regexes TEXT / NON_LETTERS / FORMAT_CHARS are hand-written matchers compared with the live re objects by an exhaustive small-scope sweep on every run']
 ASSUMPTIONS = ['letter/digit/word classes are modelled on ASCII; non-ASCII letters and digits are outside the claimed domain (DESIGN.md 2.2)',
                'brace nesting deeper than about 400 inside a format string makes the recursive-descent parser hit Python\'s recursion limit (RecursionError); the model has no such limit; generators stay below depth 110']
-PARTIAL = ['format_name_n_no_crash_partial: absence of foreign exceptions in the built-in is proved relative to Person(name) not raising one (C04\'s obligation)',
-           'abbrev_hyphen: proved for words without an opening brace; braced words / special characters are left to the correspondence (function 7) and C12',
+PARTIAL = ['abbrev_hyphen_braced: for balanced words; the letter of a piece is characterised whenever the piece scans (nesting <= 100); unbalanced words are left to the correspondence (function 7) and C12',
            '"as BibTeX does" is represented by the tie / abbreviation / emission laws of the property text (Spec/NameFormat.v and the Python oracle); no BibTeX binary is available to compare with',
            'letterless parts, three or more trailing ties and underscores at brace level 1 are outside the property\'s grammar: compared model-vs-code only, oracle silent']
 
